@@ -407,7 +407,9 @@ def _decoy_view(world, built):
             continue
         d = e.data or {}
         det = d.get("details")
-        view.append((e.target, e.method, e.test_id,
+        tg = d.get("tags", d.get("test_tags"))
+        view.append((e.target, e.method, e.test_id, d.get("test_status"), None if tg is None else tuple(sorted(tg)),
+                     d.get("file_name"), d.get("file_bytes"), d.get("route_code"),
                      None if det is None else tuple(sorted((k, v["bytes"]) for k, v in det.items())),
                      repr(d.get("reason")), repr((d.get("err") or {}).get("type") if isinstance(d.get("err"), dict) else None)))
     for b in built.bytest:
@@ -422,18 +424,23 @@ class Decoy:
     a time between the calls of the main one.  Two pipelines that share no object must not influence
     each other: what the decoy delivers interleaved has to equal what it delivers when run alone."""
 
-    def __init__(self, spec, make_testtools):
-        self.spec = spec
-        self.make = make_testtools
+    def __init__(self, factory, history=None):
+        """factory(world, built) -> the reporter-side object of a fresh pipeline."""
+        self.factory = factory
+        self.history = DECOY_HISTORY if history is None else history
         self.reference = self._run_alone()
         self.world = World()
         self.built = Built()
-        self.rep = Reporter(build_stack(spec, self.world, self.built, make_testtools=make_testtools), DECOY_HISTORY)
+        self.rep = Reporter(factory(self.world, self.built), self.history)
         self.raised = None
+
+    @classmethod
+    def for_spec(cls, spec, make_testtools):
+        return cls(lambda w, b: build_stack(spec, w, b, make_testtools=make_testtools))
 
     def _run_alone(self):
         w, b = World(), Built()
-        rep = Reporter(build_stack(self.spec, w, b, make_testtools=self.make), DECOY_HISTORY)
+        rep = Reporter(self.factory(w, b), self.history)
         try:
             while rep.step() is not None:
                 pass
@@ -452,7 +459,7 @@ class Decoy:
     def finish(self, out, spec):
         if self.reference is None:
             return
-        while self.raised is None and self.rep.i < len(DECOY_HISTORY):
+        while self.raised is None and self.rep.i < len(self.history):
             self.step()
         if self.raised is not None:
             out.violate("pipelines-interfere", "decoy-raised:" + type(self.raised).__name__,
